@@ -27,13 +27,13 @@ const (
 var reserved = map[string]bool{"time": true, "level": true, "msg": true, "caller": true, "logger": true}
 
 func genKey() *rapid.Generator[string] {
-	// legal logfmt keys: non-empty, no space, '=', quote or control character; no '.' so that
-	// dotted group paths stay unambiguous; valid UTF-8
+	// legal logfmt keys: non-empty, no space, '=', quote or control character; no '.' inside or at the end so
+	// that dotted group paths stay unambiguous (a leading dot is); valid UTF-8
 	return rapid.OneOf(
 		rapid.StringMatching(`[a-z][a-z0-9_]{0,7}`),
 		rapid.StringMatching(`[a-z][a-z0-9_]{0,7}`),
 		rapid.StringMatching(`[a-zA-Z0-9_:/@#%&*+,;<>?!$^|~(){}\[\]\\'-]{1,8}`),
-		rapid.SampledFrom([]string{"Time", "LEVEL", "error", "!BADKEY", "ключ", "键", "k🙂", "a-b", "0", "[x]", "{y}", "a,b", "a\\b", "caller_", "msgs"}),
+		rapid.SampledFrom([]string{"Time", "LEVEL", "error", "!BADKEY", "ключ", "键", "k🙂", "a-b", "0", "[x]", "{y}", "a,b", "a\\b", "caller_", "msgs", ".hidden", ".a", "..", "callers", "caller_id", "timeout", "levels", "message"}),
 	).Filter(func(k string) bool { return !reserved[k] && k != "" })
 }
 
@@ -291,7 +291,7 @@ func genScenario(t *rapid.T) (scenario, slog.Attrs) {
 	}
 	sc.How = rapid.SampledFrom([]int{0, 0, 1, 2, 3}).Draw(t, "howFormatIsSet")
 	sc.FlagsHow = rapid.SampledFrom([]int{0, 0, 1, 2, 3, 4}).Draw(t, "flagsHow")
-	sc.Disturb = rapid.SampledFrom([]int{0, 0, 0, 1, 2, 3, 4, 5, 6, 7}).Draw(t, "disturbance")
+	sc.Disturb = vlib.GenDisturb().Draw(t, "disturbance")
 	sc.Layout = rapid.SampledFrom([]string{"", "", "", time.Kitchen, time.Stamp, "15:04", "15:04:05.000"}).Draw(t, "ownTimeLayout")
 	sc.Name = rapid.SampledFrom([]string{"", "", "", "x\" level=\"error", "two\nlines", "tab\there", "back\\slash", "ctl\x01x", "\u00fcn\u00ef c\u00f6de", "sp ace", "eq=sign", "trailing\\"}).Draw(t, "loggerName")
 	sc.Msg = vlib.GenMsg().Draw(t, "msg")
